@@ -21,8 +21,8 @@ PROPS["C14"] = dict(
                "integer-valued coordinates); PathBuffer / Commands / Polygon views are covered by differential runs "
                "and models as listed in the evidence; unsafe pointer arithmetic is modelled as checked list access.",
     technique="Coq proof (induction over builder programs) + model/implementation correspondence via vm_compute",
-    coq_targets=["theories/Run/C14.vo"],
-    props_file=None,
+    coq_targets=["theories/Props/C14.vo", "theories/Run/C14.vo"],
+    props_file="theories/Props/C14.v",
     props_module="Props.C14",
     harness=[dict(sub="c14", profile="debug"), dict(sub="c14", profile="release")],
     rule="builder programs: every well-nested sequence of begin/line/quadratic/cubic/end/close calls up to "
@@ -37,4 +37,27 @@ PROPS["C14"] = dict(
     ],
     assumptions=["builder programs are well nested (the PathBuilder contract; lyon's debug validator enforces it)",
                  "every attribute slice has exactly num_attributes entries (asserted by the builder)"],
+)
+
+PROPS["C10"] = dict(
+    level="proof",
+    level_text="Theorems (Props/C10.v): for line, quadratic and cubic segments over the rationals, split / before_split / "
+               "after_split / split_range / flip / degree elevation / affine transformation commute with sampling exactly, "
+               "and the derivative is the first-order term of the sampled curve (explicit remainder), for ALL control "
+               "points and parameters (ring identities). The Gallina definitions follow the operation order of the Rust "
+               "source and are compared with lyon_geom (f64) for exact equality on the exactness domain. Length "
+               "additivity is transcendental: validated numerically per run (not a theorem, except for lines).",
+    level_note="Trusted: Coq kernel; model fidelity by differential runs on integer control points / dyadic parameters "
+               "(there IEEE arithmetic is exact); rounding on general inputs and arc trigonometry are not covered by "
+               "the theorems; arc operations are validated numerically.",
+    technique="Coq proof (ring/field identities over Q) + exact differential correspondence via vm_compute",
+    coq_targets=["theories/Props/C10.vo", "theories/Run/Geom.vo"],
+    props_file="theories/Props/C10.v",
+    props_module="Props.C10",
+    harness=[dict(sub="c10", profile="debug")],
+    rule="random integer control polygons in [-8,8]^2 (1/8 all-equal, 1/8 collinear, 1/8 start=end, 1/8 coincident "
+         "control point), parameters k/16, integer affine maps; every operation of line/quadratic/cubic is one case; "
+         "non-trivial = control points not all equal; distinct = distinct (op, operands) text",
+    trusted_base=["Model/Bezier.v follows line.rs / quadratic_bezier.rs / cubic_bezier.rs operation by operation over Q"],
+    assumptions=["exact (rational) arithmetic in the theorems; f64 rounding only enters outside the exactness domain"],
 )
